@@ -66,7 +66,7 @@ REDUCED = {
     ("g", 3): ["Homogeneous", "Affine", "AlignmentSimilarity", "Rotation", "NonUniformScale", "AlignmentTranslation", "TransformChain", "WithDims"],
 }
 # letters of the decomposition-only roots
-DEC_LETTERS = ["Affine", "Affine-negdet", "Affine-equal-sv", "Similarity", "AlignmentAffine", "AlignmentSimilarity", "Rotation", "UniformScale", "NonUniformScale", "Translation", "AlignmentRotation", "AlignmentTranslation", "AlignmentUniformScale"]
+DEC_LETTERS = ["Affine", "Affine-negdet", "Affine-equal-sv", "Affine-tie-largest", "Affine-tie-smallest", "Similarity", "AlignmentAffine", "AlignmentSimilarity", "Rotation", "UniformScale", "NonUniformScale", "Translation", "AlignmentRotation", "AlignmentTranslation", "AlignmentUniformScale"]
 
 # alphabet schedule: per level (letter set, roles)
 SCHEDULES = {
@@ -201,6 +201,18 @@ def special(letter, d, seed):
         refl[0, 0] = -1.0
         h[:d, :d] = rot.dot(np.diag(0.7 + 0.8 * r.rand(d))).dot(refl) + 0.1 * r.rand(d, d)
         assert np.linalg.det(h[:d, :d]) < 0
+        return mt.Affine(h)
+    if letter in ("Affine-tie-largest", "Affine-tie-smallest"):
+        # ties between SOME singular values only (one letter per position of the tie; in 2-D a tie is all-equal):
+        # R1 diag(s) R2 with the tie built in exactly
+        rot2_ = L.rotation_matrix(d, seed, ("c03-special2", letter))
+        if letter == "Affine-tie-largest":
+            sv = [1.6] * (d - 1) + [0.7]
+        else:
+            sv = [1.9] + [0.8] * (d - 1)
+        # (singular values that differ by less than the 1e-5 relative tolerance of the Scale factory are decomposed
+        # as uniform and recompose only to ~1e-6: outside "clearly equal or clearly different", not a letter)
+        h[:d, :d] = rot.dot(np.diag(sv)).dot(rot2_)
         return mt.Affine(h)
     if letter == "Affine-equal-sv":
         # all singular values equal: Scale() takes its uniform shortcut inside decompose()
@@ -362,7 +374,7 @@ class C03(Check):
         if blob is None:
             if world == "m":
                 obj = mild(letter, var, self.seed)
-            elif letter in ("Affine-negdet", "Affine-equal-sv"):
+            elif letter in ("Affine-negdet", "Affine-equal-sv", "Affine-tie-largest", "Affine-tie-smallest"):
                 obj = special(letter, d, self.seed)
             elif letter in INT_LETTERS:
                 obj = int_letter(letter, d)
